@@ -228,6 +228,7 @@ def run(ctx):
             "konst::parsing::parse_errors::ParseError::new", "konst::parsing::parse_errors::ParseError::other_error"}
         inline_no_err = {b.key for b in methods if not b.loops()}
         cw = CutWalker(prog, pv)
+        ctor_dirs = {}
         for b in methods:
             name = b.key.split("::")[-1]
             out = b.rec.get("sig_output", "")
@@ -271,6 +272,7 @@ def run(ctx):
                             if no != exp_off:
                                 ctx.violation("TS-OFFSET", "%s|%s|ctor-off" % (cfg, name),
                                               "%s: new parser's start_offset is %s, expected %s" % (name, show(no), show(exp_off)), b.file())
+                            ctor_dirs[name] = (d, b)
                             continue
                         chain = cw.chain(ns, old_str)
                         if chain is None:
@@ -346,6 +348,13 @@ def run(ctx):
                     METHOD_LAW[b.key] = "back"
             ctx.instance("TS-OFFSET", "%s|%s" % (cfg, name), nontrivial=n_ok > 0,
                          sample={"method": name, "ok_paths": n_ok, "err_paths": n_err, "paths": len(paths)})
+        # the constructors agree on the direction a fresh parser starts with (an error built from a fresh parser reports its offset
+        # from that end): a sibling cross-check - no constructor is the reference, a disagreement is the violation
+        ds = {n: d_ for n, (d_, _) in ctor_dirs.items()}
+        if len({v for v in ds.values() if v is not None}) > 1:
+            ctx.violation("TS-DIR", "%s|constructors" % cfg, "the Parser constructors start with different directions: %s" % (
+                {n: DIRS.get(v, v) for n, v in sorted(ds.items())}), list(ctor_dirs.values())[0][1].file())
+        ctx.instance("TS-DIR", "%s|constructors" % cfg, sample={"constructors": sorted(ds), "direction": sorted(str(DIRS.get(v, v)) for v in set(ds.values()))})
         error_tables(ctx, prog, F)
         # the accessors through which positions, directions and errors are observed
         from .. import accessors
@@ -362,6 +371,7 @@ def run(ctx):
             accessors.rebuild(ctx, "ACC", prog, PE + "copy", nfields=5)
     ctx.floor("ACC", 7)
     ctx.floor("TS-OFFSET", 32)
+    ctx.floor("TS-DIR", 1)
     ctx.floor("TAB-ERR", 4)
 
 
